@@ -11,3 +11,11 @@ use crate::shims::scursor::WriteCursor;
 //@|        r matches Err(RequestError::Exception(e)) ==> msg.ser_exc(e),
 //@|        r is Err ==> (r->Err_0 is Exception || r->Err_0 is Internal || (r->Err_0 is BadRequest && msg.ser_may_reject())),
 //@entry| broadcast use crate::shims::scursor::lemma_subrange_update_outside;
+
+// ---- C07 / C20: frame-level decoding (logging) of an RTU frame
+//@item rodbus/src/serial/frame.rs | RtuDisplay
+impl<'a> RtuDisplay<'a> {
+//@fn rodbus/src/serial/frame.rs | RtuDisplay<'a>::new | tags=C07,C20
+//@|    ensures r.level == level, r.destination == destination, r.payload@ == payload@, r.crc == crc,
+//@fn rodbus/src/serial/frame.rs | std::fmt::Display for RtuDisplay<'a>::fmt | tags=C07,C20 | inherent r28
+}
